@@ -7,6 +7,7 @@ are inlined into their callers before any analysis, so that every rule sees
 the same shape it would see without the extraction (and a new helper that
 contains a defect is analysed in the context of its callers)."""
 import copy
+import json
 import re
 
 MAX_BLOCKS = 400
@@ -278,7 +279,12 @@ def _closure_of(fd, op, hops=0):
         return None
     l = pl["local"]
     defs = [st for b in fd["blocks"] if not b["cleanup"] for st in b["stmts"] if st["s"] == "assign" and st["place"]["local"] == l and not st["place"]["proj"]]
-    if len(defs) != 1:
+    if len(defs) > 1:
+        # threading copies blocks: the same statement in the original and in its copies is one definition
+        first = json.dumps(defs[0]["rv"], sort_keys=True)
+        if any(json.dumps(d_["rv"], sort_keys=True) != first for d_ in defs[1:]):
+            return None
+    elif len(defs) != 1:
         return None
     rv = defs[0]["rv"]
     if rv["r"] == "aggregate" and rv.get("agg") == "closure":
